@@ -280,6 +280,10 @@ class Evaluator:
                 if c is not None:
                     return ExcClass(c.name)
             base = self._eval(e.value, env)
+            if isinstance(base, Obj):
+                if e.attr in base.attrs:
+                    return base.attrs[e.attr]
+                raise Licence(f"{self.f.loc(e)}: attribute {e.attr} of the abstract object is not part of the table")
             if isinstance(base, Opaque):
                 return Opaque(f"{base.tag}.{e.attr}")
             raise Licence(f"{self.f.loc(e)}: attribute {src(e)} of abstract value {base!r}")
@@ -369,6 +373,18 @@ class Evaluator:
             return abs(args[0])
         # repository function: interpret its body too (wrappers such as _assert / check_arg)
         targets = [t for t in self.prog.resolve_call(self.f, e) if isinstance(t, FuncInfo)]
+        if isinstance(e.func, ast.Attribute) and isinstance(e.func.value, ast.Name) and isinstance(env.get(e.func.value.id), Obj):
+            obj = env[e.func.value.id]
+            c = self.prog.find_class(obj.cls)
+            m = self.prog.lookup_method(c, e.func.attr)
+            if m is not None:
+                callee_env = self._bind_args(m, e, args, kwargs)
+                if m.self_name:
+                    callee_env[m.self_name] = obj
+                out = self._run_func(m, callee_env)
+                if out.kind == "raise":
+                    raise _Raise(out.name or "?", out.args, out.kwargs, out.node or e)
+                return out.value
         if len(targets) == 1:
             t = targets[0]
             if t.name == "__init__" and t.cls is not None:
@@ -407,6 +423,17 @@ class Evaluator:
                 finally:
                     self.f = saved
         return env
+
+
+class Obj:
+    """An abstract object with a fixed attribute table (e.g. `self` of the function under evaluation)."""
+
+    def __init__(self, cls: str, attrs: dict[str, Any]) -> None:
+        self.cls = cls
+        self.attrs = attrs
+
+    def __repr__(self) -> str:
+        return f"<obj {self.cls}>"
 
 
 class ExcClass:
